@@ -1,7 +1,7 @@
 (* Properties/C08.v -- C08: multiphase: each phase evolves independently with its own volume factor *)
 From Coq Require Import Reals ZArith List Permutation.
 From Coquelicot Require Import Hierarchy Derive.
-From PV Require Import Num NumR Model_core Model_minerals Proofs_core Proofs_minerals Proofs_rhs Proofs_path Proofs_path2.
+From PV Require Import Num NumR Model_core Model_minerals Proofs_core Proofs_minerals Proofs_rhs Proofs_path Proofs_path2 Proofs_multiphase.
 Import ListNotations.
 Open Scope R_scope.
 
@@ -56,3 +56,38 @@ Proof. exact multiphase_solution_is_single_phase. Qed.
 (* non-vacuity: enstatite (phase 1) holds the fraction 0.3 in the assemblage [olivine; enstatite] *)
 Example C08_solution_nonvacuous : @lookup_fraction NumR 1 [0; 1]%Z [0.7; 0.3] = Ok 0.3.
 Proof. exact C08_solution_nonvacuous_proof. Qed.
+
+(* ---- the boundary of the fraction simplex: fractions exactly 0 and exactly 1 ----------------------------
+   (all assemblages, all list orders: the only hypothesis is what the lookup returns) *)
+
+(* a mineral whose own phase holds the fraction 0 sees the vector field of the SINGLE-phase mineral with
+   boundary mobility 0, whatever M is: the fraction switches off boundary migration and nothing else *)
+Theorem C08_zero_fraction_is_zero_mobility : forall regime ph fb n ass frs (L : list R) (s : R) Sd p nn lam M (y : list R),
+  @lookup_fraction NumR ph ass frs = Ok 0 ->
+  @rhs NumR regime ph fb n ass frs L s Sd p nn lam M y
+  = @rhs NumR regime ph fb n [ph] [1] L s Sd p nn lam 0 y.
+Proof. exact rhs_zero_fraction_is_zero_mobility. Qed.
+
+(* a mineral whose own phase holds the fraction 1 (the other listed phases hold 0) is the single-phase mineral *)
+Theorem C08_unit_fraction_is_single_phase : forall regime ph fb n ass frs (L : list R) (s : R) Sd p nn lam M (y : list R),
+  @lookup_fraction NumR ph ass frs = Ok 1 ->
+  @rhs NumR regime ph fb n ass frs L s Sd p nn lam M y
+  = @rhs NumR regime ph fb n [ph] [1] L s Sd p nn lam M y.
+Proof. exact rhs_unit_fraction_is_single_phase. Qed.
+
+(* ... and fraction 0 does NOT freeze the texture: there is an input with own fraction 0 whose modelled
+   eval_rhs has a non-zero entry in the orientation / volume blocks (an implementation that returns zero
+   texture derivatives for a phase of fraction 0 therefore contradicts the model) *)
+Theorem C08_zero_fraction_not_frozen :
+  exists (regime ph fb : Z) (n : nat) (ass : list Z) (frs L : list R) (s : R) (Sd : list R) (p nn lam M : R) (y out : list R),
+    @lookup_fraction NumR ph ass frs = Ok 0 /\
+    @rhs NumR regime ph fb n ass frs L s Sd p nn lam M y = Ok out /\
+    length out = (9 + 10 * n)%nat /\
+    ~ all_zero (skipn 9 out).
+Proof. exact zero_fraction_not_frozen. Qed.
+
+(* non-vacuity of the two boundary hypotheses, both list orders *)
+Example C08_boundary_nonvacuous :
+  @lookup_fraction NumR 1 [0; 1]%Z [1; 0] = Ok 0 /\ @lookup_fraction NumR 1 [1; 0]%Z [0; 1] = Ok 0 /\
+  @lookup_fraction NumR 0 [0; 1]%Z [1; 0] = Ok 1 /\ @lookup_fraction NumR 0 [1; 0]%Z [0; 1] = Ok 1.
+Proof. exact C08_boundary_nonvacuous_proof. Qed.
